@@ -416,7 +416,12 @@ class SimFS:
         """os.stat / os.lstat for simulated files (os.path.exists, isfile, getsize,
         pathlib.Path.exists/stat all end here)."""
         rel = self.rel(path) if not k.get("dir_fd") else None
-        if rel is None:
+        try:
+            empty = not isinstance(path, int) and len(os.fspath(path)) == 0
+        except TypeError:
+            empty = False
+        if rel is None or empty:
+            # (the empty path names nothing: the real call raises FileNotFoundError)
             return self._real["stat"](path, *a, **k)
         if rel in self.files:
             self.log.add("fs", "stat", rel, "file")
